@@ -73,6 +73,14 @@ impl Sub for Cross {
     if c.warmups > 0 {
       cl.tag(format!("warmups={}", c.warmups.min(4)));
     }
+    if c.warmups == 3 {
+      // Y's parsers have been through an application whose callbacks panic
+      let ky = universe(y, &seed);
+      if let Ok(ly) = ky.lib() {
+        let _ = callbacks_misbehave(y, &ly, 7);
+        cl.tag("after-callbacks-that-panic");
+      }
+    }
     if c.msg.len() >= 65536 {
       cl.tag("message>=64KiB");
     }
@@ -132,6 +140,33 @@ impl Sub for Cross {
     let ky = universe(y, &seed);
     let ly = ky.lib().expect("valid key");
     let ay = if y.has_assertion() { c.assertion.as_deref() } else { None };
+    // a parser of Y that has been through a panicking application validator (contained) must still REFUSE, not unwind
+    if c.warmups == 3 {
+      let role = ClaimSpec::Custom("no-such-claim".into(), serde_json::Value::Null);
+      let own_nonce: Vec<u8> = if y == Proto::V2L { c.nonce[..24].to_vec() } else { c.nonce.clone() };
+      if let Ok(own) = layer_build(y, Layer::Core, &ly, &own_nonce, "{\"data\":\"own\"}", c.footer.as_deref(), ay) {
+        for layer in [Layer::Generic, Layer::Prelude] {
+          let outcome = crate::engine::catch(|| {
+            let mut parser = new_parser(y, layer);
+            if let Some(f) = c.footer.as_deref() {
+              parser.footer(f);
+            }
+            if let Some(a) = ay {
+              parser.assertion(a);
+            }
+            let _ = parser.validate(&role, VALIDATOR_PANICS_TEXT);
+            let first = crate::engine::catch(|| parser.parse(&own, &ly).is_ok());
+            (first.is_err(), parser.parse(&presented, &ly).map(|v| v.to_string()))
+          });
+          match outcome {
+            Ok((_, Err(e))) => cl.tag(format!("rejected-after-validator-panic:{}", e.variant)),
+            Ok((_, Ok(v))) => vio!("C07:accepted:{}->{}:{}", x.label(), y.label(), layer.label(); "{} {} parser (after a contained validator panic) accepted a {} token: {}", y.label(), layer.label(), x.label(), v),
+            Err((loc, msg)) if !loc.starts_with("harness:") => vio!("C07:unwound-instead-of-refusing:{}", layer.label(); "after a contained validator panic the {} {} parser did not refuse the {} token but panicked at {}: {}", y.label(), layer.label(), x.label(), loc, msg),
+            Err(_) => {}
+          }
+        }
+      }
+    }
     // every layer of Y must refuse it
     for layer in Layer::ALL {
       match layer_parse(y, layer, &ly, &presented, c.footer.as_deref(), ay) {
